@@ -11,8 +11,8 @@ def lean_stage(pid, P):
     """build + forbidden tokens + axiom audit.  Returns dict(ok, broken=[names], info)"""
     res = dict(build_ok=False, broken=[], theorems=[], axioms={}, forbidden=[], problems=[], digests={})
     ok, out, failed, errs = vlib.build_lean()
-    guard_problems = [e for e in errs if e.startswith("gen_guards:")]
-    errs = [e for e in errs if not e.startswith("gen_guards:")]
+    guard_problems = [e for e in errs if e.startswith(("gen_guards:", "gen_funcs:"))]
+    errs = [e for e in errs if e not in guard_problems]
     res["build_ok"] = ok
     res["failed_modules"] = failed
     res["build_errors"] = errs[:10]
@@ -57,13 +57,19 @@ def lean_stage(pid, P):
         res["broken"] = res["broken"] or theorems
     if not theorems:
         res["problems"].append("no theorems registered for this property")
-    if guard_problems:
-        # a guard of the C text could not be translated (tools/gen_guards.py): the theorems of the
-        # files that import Generated.Guards are no longer tied to the code
-        hit = [f for f in files if f.exists() and "CollectionsC.Generated.Guards" in lean_deps_file(f)]
-        if hit:
-            res["problems"] += guard_problems
-            res["broken"] += [t for f in hit for t in vlib.lean_theorems(f) if t not in res["broken"]]
+    for prefix, module in (("gen_guards:", "CollectionsC.Generated.Guards"), ("gen_funcs:", "CollectionsC.Generated.Funcs")):
+        # a guard / a function of the C text could not be translated (tools/gen_guards.py, gen_funcs.py):
+        # the theorems of the files that import the generated module are no longer tied to the code
+        for f in files:
+            if not f.exists() or module not in lean_deps_file(f):
+                continue
+            txt = f.read_text()
+            # `gen_x: <function or "struct tag"> (file): why` concerns the files that mention that name
+            gp = [e for e in guard_problems if e.startswith(prefix)
+                  and (lambda m: not m or m.group(1) in txt)(re.match(r"gen_\w+: (?:struct )?(\w+) \(", e))]
+            if gp:
+                res["problems"] += [e for e in gp if e not in res["problems"]]
+                res["broken"] += [t for t in vlib.lean_theorems(f) if t not in res["broken"]]
     res["failed_all"] = failed
     return res
 
